@@ -266,6 +266,9 @@ class World:
             del others   # (types are shared through SetType and copies, as the specification says)
             e = o.add_data({nm(a["n"]): spec})
             self.bind(a["s"], e)
+        elif act == "AddDataRefused":
+            o = self.ent(a["p"])
+            o.add_data({nm(a["n"]): {"values": self.values(1, self.n_values(o)), "association": "NO-SUCH-ASSOCIATION"}})
         elif act == "AddDataLike":
             o = self.ent(a["p"])
             like = self.ent(a["e"])
